@@ -622,6 +622,8 @@ def run(ctx):
     rounding_agreement(ctx)
     peephole_guards(ctx)
     dead_code_premises(ctx)
+    from .. import peephole
+    peephole.check(ctx, 'C02')
     return ('Structural clauses of C02 decided on the current source: '
             'operator identity between the constant folder, the peephole '
             'tables and the CPU handlers; guard (try/except) on every '
